@@ -187,9 +187,9 @@ func (g *G) attrs(n *Node) {
 			a.Kind = ACond
 			a.Expr = g.boolFrag()
 			if g.chance(4) {
-				// white space inside the braces, in front of and behind the condition (also a line break, in a list
-				// written over several lines)
-				a.Expr = g.pick(" ", "  ", " \t", "\n\t\t\t\t") + a.Expr + g.pick("", " ", "  ")
+				// white space inside the braces, in front of and behind the condition (blanks and tabs; a line break here would make the
+				// next template line look less deep than it is to the printer's indentation bookkeeping)
+				a.Expr = g.pick(" ", "  ", " \t", "\t") + a.Expr + g.pick("", " ", "  ")
 			}
 		}
 		n.Attrs = append(n.Attrs, a)
